@@ -356,80 +356,101 @@ func (sp *Spec) runOnce(rep *core.Report) Stats {
 			st.Closure = fmt.Sprintf("deadline at depth %d", depth)
 			break
 		}
-		if sp.MaxStates > 0 && len(seen) > sp.MaxStates {
+		maxStates := sp.MaxStates
+		if maxStates == 0 {
+			maxStates = 1500000 // safety net: a (changed) implementation whose private state grows without bound must end in a capped run, not in an out-of-memory kill
+		}
+		if len(seen) > maxStates {
 			st.Exhaustive = false
 			st.Closure = fmt.Sprintf("state cap at depth %d", depth)
 			break
 		}
-		results := make([][]result, len(frontier))
-		var wg sync.WaitGroup
-		ch := make(chan int, len(frontier))
-		for i := range frontier {
-			ch <- i
-		}
-		close(ch)
-		for w := 0; w < workers; w++ {
-			wg.Add(1)
-			go func() {
-				defer wg.Done()
-				for i := range ch {
-					p := frontier[i]
-					s, err := sp.Build(p)
-					if err != nil {
-						results[i] = []result{{fails: []Fail{{sp.Component + "/replay-panic", err.Error(), false}}}}
-						continue
-					}
-					var ops []Op
-					func() {
-						defer func() { recover() }()
-						ops = s.Ops()
-					}()
-					if sp.observeOp {
-						ops = append(append([]Op{}, ops...), Op{N: ObserveOp})
-					}
-					rs := make([]result, 0, len(ops))
-					for _, op := range ops {
-						rs = append(rs, sp.guardedStep(p, op))
-					}
-					results[i] = rs
-				}
-			}()
-		}
-		wg.Wait()
 		var next []Path
-		for i, rs := range results {
-			p := frontier[i]
-			for _, r := range rs {
-				st.Transitions++
-				if r.obsChanged {
-					st.ObserversStateful = true
-				}
-				np := Path{p.Init, append(append([]Op{}, p.Ops...), r.op)}
-				if len(r.fails) > 0 {
-					cut := false
-					for _, f := range r.fails {
-						rep.Add(f.Key, f.Detail, np.String(), sp.replay(np))
-						if !f.Soft || !rep.IsKnown(f.Key) {
-							cut = true
+		capped := false
+		const chunk = 4096
+		for lo := 0; lo < len(frontier) && !capped; lo += chunk {
+			hi := lo + chunk
+			if hi > len(frontier) {
+				hi = len(frontier)
+			}
+			part := frontier[lo:hi]
+			results := make([][]result, len(part))
+			var wg sync.WaitGroup
+			ch := make(chan int, len(part))
+			for i := range part {
+				ch <- i
+			}
+			close(ch)
+			for w := 0; w < workers; w++ {
+				wg.Add(1)
+				go func() {
+					defer wg.Done()
+					for i := range ch {
+						p := part[i]
+						s, err := sp.Build(p)
+						if err != nil {
+							results[i] = []result{{fails: []Fail{{sp.Component + "/replay-panic", err.Error(), false}}}}
+							continue
+						}
+						var ops []Op
+						func() {
+							defer func() { recover() }()
+							ops = s.Ops()
+						}()
+						if sp.observeOp {
+							ops = append(append([]Op{}, ops...), Op{N: ObserveOp})
+						}
+						rs := make([]result, 0, len(ops))
+						for _, op := range ops {
+							rs = append(rs, sp.guardedStep(p, op))
+						}
+						results[i] = rs
+					}
+				}()
+			}
+			wg.Wait()
+			for i, rs := range results {
+				p := part[i]
+				for _, r := range rs {
+					st.Transitions++
+					if r.obsChanged {
+						st.ObserversStateful = true
+					}
+					np := Path{p.Init, append(append([]Op{}, p.Ops...), r.op)}
+					if len(r.fails) > 0 {
+						cut := false
+						for _, f := range r.fails {
+							rep.Add(f.Key, f.Detail, np.String(), sp.replay(np))
+							if !f.Soft || !rep.IsKnown(f.Key) {
+								cut = true
+							}
+						}
+						if cut || r.key == "" {
+							st.Cut++
+							continue
 						}
 					}
-					if cut || r.key == "" {
-						st.Cut++
+					if r.prune {
+						st.Pruned++
 						continue
 					}
-				}
-				if r.prune {
-					st.Pruned++
-					continue
-				}
-				if _, ok := seen[r.key]; !ok {
-					seen[r.key] = struct{}{}
-					next = append(next, np)
-					if n := len(seen); n == 2 || n == 12 || n == 60 || n%997 == 1 {
-						rep.Sample(sp.Component + " " + np.String())
+					if _, ok := seen[r.key]; !ok {
+						seen[r.key] = struct{}{}
+						next = append(next, np)
+						if n := len(seen); n == 2 || n == 12 || n == 60 || n%997 == 1 {
+							rep.Sample(sp.Component + " " + np.String())
+						}
 					}
 				}
 			}
+			if len(seen) > maxStates || (sp.Deadline > 0 && time.Since(start) > sp.Deadline) {
+				capped = true
+			}
+		}
+		if capped {
+			st.Exhaustive = false
+			st.Closure = fmt.Sprintf("state/time cap inside depth %d (states %d)", depth+1, len(seen))
+			break
 		}
 		frontier = next
 		depth++
